@@ -49,6 +49,7 @@ def wakes (s' : Sys) : Effect → List Id
   | .createProp p => wakeProp p
   | .createCfg t _ => ((s'.cfg? t).map wakeCfg).getD []
   | .cfgVals _ _ => []
+  | .cfgAVals _ _ => []
   | .cfg t _ _ _ _ _ => ((s'.cfg? t).map wakeCfg).getD []
   | .dev _ => []
 
@@ -75,7 +76,7 @@ inductive Fault
   | relDown (id : Nat)         -- relation removed
   | connDown (id : Nat)        -- the connection disappears, relation still listed
   | connUp (id : Nat)
-  | devRestart (t : Tgt)       -- the device restarts empty
+  | devRestart (t : Tgt)       -- the device restarts empty; every connection to it is lost
 deriving DecidableEq, Repr, Inhabited
 
 def applyFault (s : Sys) : Fault → Sys
@@ -83,11 +84,12 @@ def applyFault (s : Sys) : Fault → Sys
   | .relDown id => { s with rels := s.rels.filter (fun x => x.id ≠ id) }
   | .connDown id => { s with rels := s.rels.map (fun x => if x.id = id then { x with conn := false } else x) }
   | .connUp id => { s with rels := s.rels.map (fun x => if x.id = id then { x with conn := true } else x) }
-  | .devRestart t => s.setDev t []
+  | .devRestart t => { (s.setDev t []) with rels := s.rels.filter (fun x => x.target ≠ t) }
 
 def faultWakes (s : Sys) : Fault → List Id
   | .relUp r => [.mast r.target]
   | .relDown id => ((s.rel? id).map fun r => [Id.mast r.target]).getD []
+  | .devRestart t => [.mast t]
   | _ => []
 
 inductive Step
